@@ -77,6 +77,10 @@ func c15Subj(c *mon.Ctx, i int) (c15Subject, bool) {
 	if i%4 == 3 {
 		prof = prof.With(func(p *gen.Profile) { p.Keys = []string{"id", "ID", "Id", "a", "A", "b"}; p.PArr = 0.3 })
 	}
+	if i%8 == 5 {
+		// keys that order differently as numbers and as spellings, next to keys that are not numbers
+		prof = prof.With(func(p *gen.Profile) { p.Keys = []string{"9", "10", "2b", "1", "100", "a", "-1", "01"}; p.PArr = 0.2; p.MaxFan = 6 })
+	}
 	a, b := PairFor(r, o, prof)
 	if len(o.Keys) > 0 && (i/len(AllDiffOpts))%2 == 1 {
 		// members keep their key and change elsewhere: hunks below a keyed member, at the root or under a key
@@ -292,7 +296,7 @@ func init() {
 			"(2) the same calls issued concurrently by 8 goroutines on shared values under the Go race detector (any report = a write by a read-only API); " +
 			"(3) determinism: each output recomputed 12 times from fresh parses in-process (Go randomises map iteration per range statement) and across 4 fresh processes of the real binary; non-trivial = every subject; distinct = distinct (subject, call sequence)",
 		Floors: map[string]int{"read_only_calls": 100000, "patched_after_rendering": 10000, "call:RenderPatch": 10000, "call:RenderMerge": 10000,
-			"determinism_recomputations": 50000, "race_goroutine_calls": 20000, "cross_process_runs": 400, "src:merge-text": 2000, "src:patch-text": 2000, "shared_option_slice_with_render_option": 3000, "opt_precision_subjects": 500},
+			"determinism_recomputations": 50000, "race_goroutine_calls": 20000, "cross_process_runs": 400, "src:merge-text": 2000, "src:patch-text": 2000, "shared_option_slice_with_render_option": 3000, "opt_precision_subjects": 500, "partial_digest_collisions": 100},
 		Assumptions: []string{
 			"Patch is not claimed pure (it edits its receiver) and is always applied to a fresh parse",
 			"the race detector only sees writes that actually execute on the generated subjects",
@@ -350,6 +354,17 @@ func init() {
 			if !ok {
 				c.Skip("subject not constructible")
 				return
+			}
+			if i%40 == 39 {
+				// members whose digests agree in four of their eight bytes, under the set and bag readings
+				if pc := partialCollisions(); len(pc) > 0 {
+					pr := pc[(i/40)%len(pc)]
+					o := []OptSet{OptSetO, OptMset, OptSetMerge}[(i/40)%3]
+					a := []any{pr[0], pr[1], "z", map[string]any{pr[0]: 1.0, pr[1]: 2.0}}
+					b := []any{pr[1], "w", pr[0], map[string]any{pr[1]: 2.0, pr[0]: 1.0}}
+					s = c15Subject{aText: ref.ToJSON(a), bText: ref.ToJSON(b), o: o, src: "diff"}
+					c.Feature("partial_digest_collisions")
+				}
 			}
 			c15Inputs(c, s)
 			c.Feature("src:" + s.src)
